@@ -47,7 +47,7 @@ fn main() {
             let doc = json!({
                 "property_id": prop, "tier": tier.name(), "seed": seed, "profile": profile,
                 "evaluations": partial.evaluations,
-                "distinct_nontrivial": partial.nontrivial.len(),
+                "distinct_nontrivial": partial.nontrivial.len() as u64 + partial.nontrivial_enumerated,
                 "rule": plan.rule,
                 "assumptions": plan.assumptions,
                 "samples": partial.samples,
@@ -63,7 +63,7 @@ fn main() {
             std::fs::write(&out, serde_json::to_string_pretty(&doc).unwrap()).expect("write out");
             eprintln!(
                 "{prop} {} {profile}: {} evaluations, {} distinct non-trivial, {} violations, {:.1}s",
-                tier.name(), partial.evaluations, partial.nontrivial.len(), partial.violations.len(), wall
+                tier.name(), partial.evaluations, partial.nontrivial.len() as u64 + partial.nontrivial_enumerated, partial.violations.len(), wall
             );
             if !partial.incomplete.is_empty() {
                 std::process::exit(2);
